@@ -1,6 +1,7 @@
 SPECIFICATION Spec
 CONSTANTS
-  NPs = {1, 2}
+  NPs = {2}
   MaxFields = 2
   Later = {"tx"}
-INVARIANTS KeepDisjoint NoSigNoPerms Emit
+  IndDims = {"perms", "acro", "fields"}
+INVARIANTS KeepDisjoint NoSigNoPerms FlagsDoNotSign Emit
